@@ -157,6 +157,17 @@ def gen_query(R, funcs):
             e = ("cmp", R.choice(["==", "<", "!=", ">="]), R.choice([("q", "@", ()), ("q", "@", (("child", (("name", "a"),)),)), ("q", "@", (("child", (("name", "id"),)),))]), root_q)
         pre = R.choice([(), (("child", (("name", R.choice(["items", "b", "c"])),)),), (("desc", (("wild",),)),)])
         return ("q", "$", pre + (("child", (("filter", e),)),))
+    if r < 0.47:
+        # match/search keep compiled patterns somewhere: valid, invalid and non-string patterns in any order, literal or from the data
+        fn = R.choice(["match", "search"])
+        pat = R.choice(["'a.*'", "'a('", "'['", "'ab.'", "'b'", "'x|a'", "'[ab]+'", "'a{2}'", "'\\\\d'", "'(?i)a'", "@.b", "$.limit", "$.a", "1", "''"])
+        subj = R.choice(["@", "@.a", "@.id", "@.b[0]"])
+        pre = R.choice([(), (("child", (("name", R.choice(["items", "b"])),)),)])
+        text_q = "$%s[?%s(%s, %s)]" % ("".join("." + seg[1][0][1] for seg in pre), fn, subj, pat)
+        from ..oracle import abnf as _abnf
+        a = _abnf.get(True).ast(text_q)
+        if a is not None:
+            return a
     if r < 0.5 and funcs:
         name = R.choice(sorted(funcs))
         call = gen.call(name, 1)
